@@ -4123,9 +4123,11 @@ class Qube(object):
             arg = Qube.BOOLEAN_CLASS(arg != 0)
 
         if isinstance(arg, Qube):
+            self._require_inplace_shape(arg._shape_, '&=')
             self._values_ &= (arg._values_ != 0)
             self._mask_ = self._merged_mask(arg._mask_)
         else:
+            self._require_inplace_shape(np.shape(arg), '&=')
             self._values_ &= (arg != 0)
 
         self._cache_.clear()
@@ -4140,9 +4142,11 @@ class Qube(object):
             arg = Qube.BOOLEAN_CLASS(arg != 0)
 
         if isinstance(arg, Qube):
+            self._require_inplace_shape(arg._shape_, '|=')
             self._values_ |= (arg._values_ != 0)
             self._mask_ = self._merged_mask(arg._mask_)
         else:
+            self._require_inplace_shape(np.shape(arg), '|=')
             self._values_ |= (arg != 0)
 
         self._cache_.clear()
@@ -4157,9 +4161,11 @@ class Qube(object):
             arg = Qube.BOOLEAN_CLASS(arg != 0)
 
         if isinstance(arg, Qube):
+            self._require_inplace_shape(arg._shape_, '^=')
             self._values_ ^= (arg._values_ != 0)
             self._mask_ = self._merged_mask(arg._mask_)
         else:
+            self._require_inplace_shape(np.shape(arg), '^=')
             self._values_ ^= (arg != 0)
 
         self._cache_.clear()
